@@ -79,6 +79,10 @@ class C19(Prop):
                 evs = base[:cut] + [["unsub"]] + base[cut:] + [["adv", "5"], ["run"]]
                 out.append(Case("time", "local", [("pipe", [src])], evs, {"kind": "cancel-phase"}))
         out = tg.with_units(seed, out)
+        # a REPEATING task whose timer is due the moment it is re-armed (interval 0 under the rules of a real timer future,
+        # harness field `realtimer`, see C08): it still runs once per period with consecutive numbers until it declines
+        # (seed C19-9 consumed the ready timer in a registration poll and polled it again afterwards)
+        out += C08.realtimer_cases(self)
         # is_closed() asked from ANOTHER OS thread while a task of the subscription is delivering (event `rq <event>`): the
         # query either waits for the handle's cell or sees the state before the poll — it must never answer `closed` for a
         # subscription that delivers afterwards (seed C19-8: try_lock, "busy" answered as closed)
@@ -101,6 +105,8 @@ class C19(Prop):
         return out
 
     def compare_from(self, case):
+        if case.field("realtimer"):
+            return len(case.events)
         if case.suite == "coop":
             from .. import coopgen as cg
             return 0 if cg.modelled(case) else len(case.events)
@@ -116,6 +122,8 @@ class C19(Prop):
         if case.suite == "coop":
             from .. import coopgen as cg
             return cg.oracle(case, lines)
+        if case.field("realtimer"):
+            return C08.realtimer_oracle(self, case, lines)
         pipe = case.field("pipe")[0]
         unsub = False
         rclosed = None
